@@ -12,6 +12,7 @@ pub const ALPHA: [char; 13] = ['0', '1', '7', '9', '.', 'A', 'f', 'z', '-', ' ',
 
 // loop guard: every worker publishes the case it is working on; a watchdog thread reports a case
 // that does not finish (the parser is a hand-written loop over a peekable iterator)
+const LONG_BIT: u64 = 1 << 62;
 static SLOTS: [AtomicU64; 64] = [const { AtomicU64::new(u64::MAX) }; 64];
 
 fn slot() -> usize {
@@ -30,11 +31,13 @@ pub fn start_watchdog(alpha_len: u64) {
                     since[i] += 1;
                     if since[i] >= 40 {
                         let _ = alpha_len;
-                        println!("VIOLATION property=C16 replay=/verif/replays/C16/stuck-case-{cur}.json");
+                        let site = if cur & LONG_BIT != 0 { "long-strings" } else { "strings" };
+                        let cur = cur & !LONG_BIT;
+                        println!("VIOLATION property=C16 replay=/verif/replays/C16/stuck-case-{site}-{cur}.json");
                         println!("  signature: C16|parse|does-not-terminate");
-                        println!("  witness:   strings case #{cur} has been running for 20 s");
+                        println!("  witness:   {site} case #{cur} has been running for 20 s");
                         let _ = std::fs::create_dir_all("/verif/replays/C16");
-                        let _ = std::fs::write(format!("/verif/replays/C16/stuck-case-{cur}.json"), json!({"property": "C16", "site": "strings", "index": cur, "signature": "C16|parse|does-not-terminate"}).to_string());
+                        let _ = std::fs::write(format!("/verif/replays/C16/stuck-case-{site}-{cur}.json"), json!({"property": "C16", "site": site, "index": cur, "signature": "C16|parse|does-not-terminate"}).to_string());
                         std::process::exit(1);
                     }
                 } else {
@@ -122,6 +125,32 @@ pub fn sites(tier: Tier) -> Vec<Site> {
                 let _ = check_string(&s, i, "strings", acc);
                 SLOTS[slot()].store(u64::MAX, AO::Relaxed);
                 if i % 500_009 == 0 { acc.sample(|| json!({"string": s})); }
+            }));
+    }
+    // long strings: a run of one symbol of every length 0..=200 inside each of four frames, ended by each
+    // symbol (incl. 2-, 3- and 4-byte numerals): "any length" met with lengths far above any buffer or
+    // excerpt size in the parser
+    {
+        let fillers: Vec<char> = vec!['1', '0', '9', '.', 'A', ' ', '\u{663}', '\u{967}', '\u{1d7cf}', '\u{e9}'];
+        let tails: Vec<&'static str> = vec!["", "1", "A", ".", "\u{663}", "\u{967}", "\u{1d7cf}", "\u{e9}", "A1", "-"];
+        let frames: Vec<(&'static str, &'static str)> = vec![("", ""), ("0.7A", ""), ("0.", "A"), ("", "B12")];
+        let per_len = (fillers.len() * tails.len() * frames.len()) as u64;
+        let n = 201 * per_len;
+        sites.push(Site::new("long-strings", n,
+            "prefix {nothing, 0.7A, 0., nothing} + one symbol of {1 0 9 . A space, 2-, 3- and 4-byte numerals, e-acute} repeated 0..=200 times + tail of 10 + suffix {nothing, nothing, A, B12}",
+            move |i, acc| {
+                let len = (i / per_len) as usize;
+                let r = (i % per_len) as usize;
+                let f = fillers[r % fillers.len()];
+                let t = tails[(r / fillers.len()) % tails.len()];
+                let (pre, suf) = frames[r / (fillers.len() * tails.len())];
+                let mut s = String::from(pre);
+                for _ in 0..len { s.push(f); }
+                s.push_str(t);
+                s.push_str(suf);
+                SLOTS[slot()].store(i | LONG_BIT, AO::Relaxed);
+                let _ = check_string(&s, i, "long-strings", acc);
+                SLOTS[slot()].store(u64::MAX, AO::Relaxed);
             }));
     }
     // 8-byte wire forms through the VER packet
